@@ -1252,6 +1252,34 @@ impl HeaderFieldsProvider for StorageWithChainData {
             parent_hash: header.parent_hash(),
         })
     }
+
+    // The median time is taken over the last `median_block_count` ancestors, whose headers a
+    // light client usually does not keep (the provided method panics on a missing one). Without
+    // them report the earliest possible time: a timestamp-based `since` is then judged immature
+    // instead of aborting the verification.
+    fn block_median_time(&self, block_hash: &Byte32, median_block_count: usize) -> u64 {
+        let mut timestamps: Vec<u64> = Vec::with_capacity(median_block_count);
+        let mut block_hash = block_hash.clone();
+        for _ in 0..median_block_count {
+            let header_fields = match self.get_header_fields(&block_hash) {
+                Some(header_fields) => header_fields,
+                None => return 0,
+            };
+            timestamps.push(header_fields.timestamp);
+            block_hash = header_fields.parent_hash;
+
+            if header_fields.number == 0 {
+                break;
+            }
+        }
+        if timestamps.is_empty() {
+            return 0;
+        }
+
+        // return greater one if count is even.
+        timestamps.sort_unstable();
+        timestamps[timestamps.len() >> 1]
+    }
 }
 
 impl CellDataProvider for StorageWithChainData {
